@@ -4,7 +4,8 @@ import lib, parsesuite
 from lib import enc, dec, show
 
 PID = "C01"
-TERMINATED = (1, 2, 4)
+TERMINATED = (1, 2, 4, 6)
+NOEP = (6, 7, 8)        # entry points called with the optional errorPos output NULL
 
 def until_nul(f):
     d = dec(f) or []
@@ -28,6 +29,13 @@ def build_inputs(chk, mdl):
     wide = sorted(wide)
     return nstates, suite, rnd, corpus, narrow, wide
 
+def pair_triple_accepted(mdl):
+    """the texts of the pair and triple suites (every state outside the IPv6 scanner followed by two / three class representatives and
+    the accepting completion) that the model accepts: the inputs on which components and recomposition can be compared"""
+    strs = sorted(set(parsesuite.two_step_suite(mdl, 0, 0) + parsesuite.two_step_suite(mdl, -1, 0)))
+    outs = lib.run_lines(mdl, ["parse %s 3" % f for f in strs])
+    return [f for f, o in zip(strs, outs) if o.startswith("parse 0 ")]
+
 def full_alphabet_suite(chk, mdl, have):
     """quick tier only: the same suite with EVERY ASCII character (and 128, 200, 255) after every access string, so that a single
     character handled differently from the rest of its class (a dropped or misplaced case label) cannot hide behind the
@@ -35,10 +43,16 @@ def full_alphabet_suite(chk, mdl, have):
     have = set(have)
     if chk.tier != "quick":
         # thorough: the two-step suite (state x every character x every class representative), every second string
-        return [f for f in parsesuite.two_step_suite(mdl, 2, chk.seed % 2) if f not in have]
+        return [f for f in sorted(set(parsesuite.two_step_suite(mdl, 2, chk.seed % 2) + parsesuite.two_step_suite(mdl, 0, 0) + parsesuite.two_step_suite(mdl, -1, 0))) if f not in have]
     _, full = parsesuite.automaton_suite(mdl, 1)
     two = parsesuite.two_step_suite(mdl, 16, chk.seed % 16)
-    return [f for f in sorted(set(full + two)) if f not in have]
+    # every pair of consecutive cases of every rule function outside the IPv6 scanner (two call sites that each look fine alone:
+    # a ':' case that prepares what the DIGIT-then-'%' cases of the next function rely on)
+    pairs = parsesuite.two_step_suite(mdl, 0, 0)
+    # ... and every triple: a state is then also entered through each of its predecessors (the C parser has several functions and
+    # call sites where the model has one state), e.g. "//0:" + "0" + "%" + completion
+    pairs += parsesuite.two_step_suite(mdl, -1, 0)
+    return [f for f in sorted(set(full + two + pairs)) if f not in have]
 
 def search_failing_input(chk, exes, mdl, corr_breaks, narrow, model_cache):
     rng = chk.rng
@@ -86,7 +100,7 @@ def run(chk):
     mdl = lib.build_model()
     nstates, suite, rnd, corpus, narrow, wide = build_inputs(chk, mdl)
     # request sets
-    all_entries = [0, 1, 2, 3, 4, 5]
+    all_entries = [0, 1, 2, 3, 4, 5, 6, 7, 8]
     full = full_alphabet_suite(chk, mdl, narrow)
     plan = {
         "A": [(narrow, all_entries), (full, [3])],
@@ -117,7 +131,7 @@ def run(chk):
         for rq, o in zip(reqs, impl):
             f = rq.split(); of = o.split()
             eff = until_nul(f[1]) if int(f[2]) in TERMINATED else f[1]
-            pos = of[2] if len(of) > 2 else "null"
+            pos = of[2] if len(of) > 2 and of[2] != "nullarg" else "null"
             oreq.append("spec_uri %s %s" % (eff, pos))
         need = sorted(set(r for r in oreq if r not in spec_cache))
         for r, o in zip(need, lib.run_lines(mdl, need)): spec_cache[r] = o
@@ -132,6 +146,7 @@ def run(chk):
             else:
                 if of[1] == "0": bad = "an invalid text is accepted"
                 elif of[1] != "1": bad = "rejected with code %s instead of URI_ERROR_SYNTAX" % of[1]
+                elif int(rq.split()[2]) in NOEP: pass          # no position was asked for
                 elif of[2] == "null": bad = "NULL error position"
                 elif sp[2] != "1": bad = "error position %s is not the first dead character %s (nor inside the same IP literal)" % (of[2], sp[1])
             if bad:
